@@ -283,6 +283,8 @@ def rule_diffusion_step(chk, prog):
 
 
 def run(chk, prog, tier):
+  from rules import c01 as _c01
+  _c01.rule_shared_state(chk, prog, rule='C15.10-shared-arrays-never-updated-in-place')
   rule_scaling(chk, prog, 'exponential_filter', 'attenuation', [
       (is_sym('attenuation'), 'NN'), (is_sym('cutoff'), 'NN'), (is_sym('order'), 'P'),
       (lambda t: t.k == 'bin' and t.a[0] == '-' and t.a[1] == sym.const(1) and t.a[2] == Term('sym', 'cutoff'), 'P'),
